@@ -949,6 +949,22 @@ class C17Write(Checker):
         w.async_in_to_string = None
 
     def after(self, w, op, ev):
+        if op['op'] == 'PARSE' and op.get('c17cmp') and ev['r'] != 'skip':
+            # parsing must not depend on the default text encoding
+            ref = w.docs.get(op['c17cmp'])
+            got = w.docs.get(op['doc'])
+            w.count('c17.parses_compared')
+            if ref is None:
+                return      # the reference parse failed: nothing to compare (C09's business)
+            if ev['r'] == 'exc':
+                w.violate('C17', 'locale-dependent-outcome', {'what': 'parse_musicxml', 'encoding': w.fs.default_encoding, 'exc': ev['t']})
+                return
+            a = infork(lambda: w._quiet(lambda: w.verdict(ref.el)))
+            b = infork(lambda: w._quiet(lambda: w.verdict(got.el)))
+            if a != b:
+                w.violate('C17', 'locale-dependent-outcome', {'what': 'parse_musicxml result', 'encoding': w.fs.default_encoding,
+                                                               'utf8': _clip(a, 120), 'other': _clip(b, 120)})
+            return
         if self.pre is None or ev['r'] == 'skip':
             return
         path, prior, ts, enc, async_k = self.pre
